@@ -143,7 +143,8 @@ def run(ck, spec, prop, tier, seed, scratch, replay=None, budget=None):
         with open(inner, "w") as fh:
             json.dump({"property": sub, "key": case.get("inner_key", ""), "what": "", "case": case["case"]}, fh)
         report = scratch.path("inner-report-%d.json" % int(time.time() * 1e6))
-        p = subprocess.run([binp, "-prop", sub, "-tier", "quick", "-report", report, "-replay", inner], cwd=scratch.dir, env=env,
+        renv = dict(env, VERIF_TYPES="c12.,mx.,mxo.") if engine == "coherence" else env
+        p = subprocess.run([binp, "-prop", sub, "-tier", "quick", "-report", report, "-replay", inner], cwd=scratch.dir, env=renv,
                            stdout=subprocess.PIPE, stderr=subprocess.STDOUT, text=True)
         rep = None
         if os.path.exists(report):
@@ -163,8 +164,10 @@ def run(ck, spec, prop, tier, seed, scratch, replay=None, budget=None):
         for sub in subs:
             report = scratch.path("c12-report-%s.json" % sub)
             t0 = time.time()
+            # the corpus also holds the matrix schema (unit mx): its generated API is judged for coherence here as well
+            benv = dict(env, VERIF_TYPES="c12.,mx.,mxo.") if engine == "coherence" else env
             p = subprocess.run([binp, "-prop", sub, "-tier", "quick", "-seed", str(seed), "-report", report, "-budget", "600s"],
-                               cwd=scratch.dir, env=env, stdout=subprocess.PIPE, stderr=subprocess.STDOUT, text=True)
+                               cwd=scratch.dir, env=benv, stdout=subprocess.PIPE, stderr=subprocess.STDOUT, text=True)
             rep = None
             if os.path.exists(report):
                 with open(report) as fh:
